@@ -447,6 +447,7 @@ package node_info
 //@   ensures [base] pod_status.IsActiveUsedStatus(pi.Status) ==> pi.AcceptedResource.milliCpu == pi.ResReq.milliCpu && pi.AcceptedResource.memory == pi.ResReq.memory && (forall k v1.ResourceName :: pi.AcceptedResource.scalarResources[k] == pi.ResReq.scalarResources[k] && (k in pi.AcceptedResource.scalarResources <==> k in pi.ResReq.scalarResources))
 //@   ensures [kind] pod_status.IsActiveUsedStatus(pi.Status) ==> pi.ResourceReceivedType == ite(pi.ResourceRequestType == "MigInstance", "MigInstance", ite(pi.ResourceRequestType == "Fraction" || pi.ResourceRequestType == "GpuMemory", "Fraction", "Regular"))
 //@   ensures [fraction] pod_status.IsActiveUsedStatus(pi.Status) && (pi.ResourceRequestType == "Fraction" || pi.ResourceRequestType == "GpuMemory") ==> pi.AcceptedResource.count == pi.ResReq.count && pi.AcceptedResource.portion == gpuPortion(ni, pi.ResReq) && pi.AcceptedResource.gpuMemory == needMem(ni, pi.ResReq)
+//@   ensures [ownMigMap] pod_status.IsActiveUsedStatus(pi.Status) ==> pi.AcceptedResource.migResources == nil || pi.AcceptedResource.migResources == pi.ResReq.migResources || fresh(pi.AcceptedResource.migResources)   // added by helper "cache"
 //@   ensures [mig] pod_status.IsActiveUsedStatus(pi.Status) && pi.ResourceRequestType == "MigInstance" ==> pi.AcceptedResource.migResources == pi.ResReq.migResources && pi.AcceptedResource.count == 0 && pi.AcceptedResource.portion == 0.0
 //@ end
 
@@ -491,6 +492,8 @@ package node_info
 //@   ensures [idleGpus] result == nil && task.ResourceReceivedType != "Fraction" ==> ni.Idle.gpus == old(ni.Idle.gpus) - idlePart(task, nodeChargedGpus(task))
 //@   ensures [relGpus] result == nil && task.ResourceReceivedType != "Fraction" ==> ni.Releasing.gpus == old(ni.Releasing.gpus) + relPart(task, nodeChargedGpus(task))
 //@   ensures [accepted] pod_status.IsActiveUsedStatus(task.Status) ==> task.AcceptedResource.milliCpu == task.ResReq.milliCpu && task.AcceptedResource.memory == task.ResReq.memory && (forall k v1.ResourceName :: task.AcceptedResource.scalarResources[k] == old(task.ResReq.scalarResources[k]))
+//@   ensures [separate] taskSeparate(ni, task)   // added by helper "cache"
+//@   ensures [keyRecorded] pod_info.podKeyOf(task.Pod) in ni.PodInfos   // added by helper "cache": also when the call fails the pod is (still) recorded
 //@   ensures nodeWF(ni) && podsWF(ni) && taskWF(task)
 //@ end
 
@@ -510,6 +513,8 @@ package node_info
 //@   ensures [idleGpus] result == nil && task.ResourceReceivedType != "Fraction" ==> ni.Idle.gpus == old(ni.Idle.gpus) - idlePart(task, nodeChargedGpus(task))
 //@   ensures [relGpus] result == nil && task.ResourceReceivedType != "Fraction" ==> ni.Releasing.gpus == old(ni.Releasing.gpus) + relPart(task, nodeChargedGpus(task))
 //@   ensures [accepted] pod_status.IsActiveUsedStatus(task.Status) ==> task.AcceptedResource.milliCpu == task.ResReq.milliCpu && task.AcceptedResource.memory == task.ResReq.memory && (forall k v1.ResourceName :: task.AcceptedResource.scalarResources[k] == old(task.ResReq.scalarResources[k]))
+//@   ensures [separate] taskSeparate(ni, task)   // added by helper "cache"
+//@   ensures [keyRecorded] pod_info.podKeyOf(task.Pod) in ni.PodInfos   // added by helper "cache": also when the call fails the pod is (still) recorded
 //@   ensures nodeWF(ni) && podsWF(ni) && taskWF(task)
 //@ end
 
@@ -611,9 +616,8 @@ package node_info
 // the accounting of the node did not move (cpu, memory, whole GPUs, every scalar resource incl. presence in Idle)
 //@ define acctUntouched(ni *NodeInfo) bool = ni.Used.milliCpu == old(ni.Used.milliCpu) && ni.Used.memory == old(ni.Used.memory) && ni.Used.gpus == old(ni.Used.gpus) && ni.Idle.milliCpu == old(ni.Idle.milliCpu) && ni.Idle.memory == old(ni.Idle.memory) && ni.Idle.gpus == old(ni.Idle.gpus) && ni.Releasing.milliCpu == old(ni.Releasing.milliCpu) && ni.Releasing.memory == old(ni.Releasing.memory) && ni.Releasing.gpus == old(ni.Releasing.gpus)
 //@ define acctScalarsUntouched(ni *NodeInfo) bool = forall k v1.ResourceName :: ni.Used.scalarResources[k] == old(ni.Used.scalarResources[k]) && ni.Idle.scalarResources[k] == old(ni.Idle.scalarResources[k]) && ni.Releasing.scalarResources[k] == old(ni.Releasing.scalarResources[k]) && (k in ni.Idle.scalarResources <==> old(k in ni.Idle.scalarResources))
-// the tasks of the list from index `from` on can be handed to AddTask, and no task occurs twice
+// the tasks of the list from index `from` on can be handed to AddTask
 //@ define tasksAddable(ni *NodeInfo, ts []*pod_info.PodInfo, from int) bool = forall i int :: from <= i && i < len(ts) ==> taskWF(ts[i]) && taskSeparate(ni, ts[i])
-//@ define tasksDistinct(ts []*pod_info.PodInfo) bool = forall i int, j int :: 0 <= i && i < j && j < len(ts) ==> ts[i] != ts[j]
 
 // C14/C01/C12 (snapshot): "every snapshot charges the pod's resources ... to the selected node" /
 // "pods already occupying the node (running, terminating, bound or being bound)": every pod of the list whose status
@@ -625,24 +629,29 @@ package node_info
 //@ func (*NodeInfo).AddTasksToNode
 //@   props WIPcache
 //@   requires nodeWF(ni) && podsWF(ni) && existingPodsMap != nil && existingPodsMap != ni.PodInfos
-//@   requires tasksAddable(ni, podInfos, 0) && tasksDistinct(podInfos)
+//@   requires tasksAddable(ni, podInfos, 0)
 //@   modifies existingPodsMap[*], family(podInfos[0].AcceptedResource), family(podInfos[0].ResourceReceivedType), ni.PodInfos[*], ni.LegacyMIGTasks[*], ni.Used.milliCpu, ni.Used.memory, ni.Used.gpus, ni.Used.scalarResources[*], ni.Idle.milliCpu, ni.Idle.memory, ni.Idle.gpus, ni.Idle.scalarResources[*], ni.Releasing.milliCpu, ni.Releasing.memory, ni.Releasing.gpus, ni.Releasing.scalarResources[*], ni.UsedVector[*], ni.IdleVector[*], ni.ReleasingVector[*], ni.UsedSharedGPUsMemory[*], ni.ReleasingSharedGPUsMemory[*], ni.AllocatedSharedGPUsMemory[*], ni.ReleasingSharedGPUs[*], sumIdleGPUs(ni), sumIdleGPUMem(ni), sumReleasingGPUs(ni), sumReleasingGPUMem(ni)
 //@   loop 1
 //@     invariant 0 - 1 <= rangeindex && rangeindex < len(podInfos)
 //@     invariant nodeWF(ni) && podsWF(ni)
-//@     invariant tasksAddable(ni, podInfos, rangeindex + 1)
+//@     invariant tasksAddable(ni, podInfos, 0)
 //@     invariant len(resultPods) == rangeindex + 1 && (forall i int :: 0 <= i && i <= rangeindex ==> resultPods[i] == podInfos[i].Pod)
-//@     invariant forall i int :: 0 <= i && i < len(podInfos) ==> podInfos[i] != nil && podInfos[i].Status == old(podInfos[i].Status) && podInfos[i].Pod == old(podInfos[i].Pod) && podInfos[i].UID == old(podInfos[i].UID)
-//@     invariant forall i int :: 0 <= i && i <= rangeindex && pod_status.inActiveUsed(podInfos[i].Status) ==> pod_info.podKeyOf(podInfos[i].Pod) in ni.PodInfos
-//@     invariant forall i int :: 0 <= i && i <= rangeindex ==> podInfos[i].UID in existingPodsMap && existingPodsMap[podInfos[i].UID] != nil && existingPodsMap[podInfos[i].UID].UID == podInfos[i].UID
-//@     invariant forall k common_info.PodID :: old(k in existingPodsMap) ==> k in existingPodsMap
+//@     invariant forall t *pod_info.PodInfo :: (forall i int :: 0 <= i && i < len(podInfos) ==> podInfos[i] != t) ==> t.AcceptedResource == old(t.AcceptedResource) && t.ResourceReceivedType == old(t.ResourceReceivedType)
 //@     invariant forall k common_info.PodID :: old(k in ni.PodInfos) ==> k in ni.PodInfos
-//@     invariant (forall i int :: 0 <= i && i <= rangeindex ==> !pod_status.inActiveUsed(podInfos[i].Status)) ==> acctUntouched(ni) && acctScalarsUntouched(ni)
+//@     invariant forall i int :: 0 <= i && i <= rangeindex && pod_status.inActiveUsed(podInfos[i].Status) ==> pod_info.podKeyOf(podInfos[i].Pod) in ni.PodInfos
+//@     invariant forall k common_info.PodID :: old(k in existingPodsMap) ==> k in existingPodsMap
+//@     invariant forall i int :: 0 <= i && i <= rangeindex ==> podInfos[i].UID in existingPodsMap && existingPodsMap[podInfos[i].UID] != nil && existingPodsMap[podInfos[i].UID].UID == podInfos[i].UID
+//@     invariant (exists i int :: 0 <= i && i <= rangeindex && pod_status.inActiveUsed(podInfos[i].Status)) || acctUntouched(ni)
+//@     invariant (exists i int :: 0 <= i && i <= rangeindex && pod_status.inActiveUsed(podInfos[i].Status)) || (forall k v1.ResourceName :: ni.Used.scalarResources[k] == old(ni.Used.scalarResources[k]))
+//@     invariant (exists i int :: 0 <= i && i <= rangeindex && pod_status.inActiveUsed(podInfos[i].Status)) || (forall k v1.ResourceName :: ni.Idle.scalarResources[k] == old(ni.Idle.scalarResources[k]) && (k in ni.Idle.scalarResources <==> old(k in ni.Idle.scalarResources)))
+//@     invariant (exists i int :: 0 <= i && i <= rangeindex && pod_status.inActiveUsed(podInfos[i].Status)) || (forall k v1.ResourceName :: ni.Releasing.scalarResources[k] == old(ni.Releasing.scalarResources[k]))
 //@   ensures [allReturned] len(resultPods) == len(podInfos) && (forall i int :: 0 <= i && i < len(podInfos) ==> resultPods[i] == podInfos[i].Pod)
 //@   ensures [occupyingPodsRecorded] forall i int :: 0 <= i && i < len(podInfos) && pod_status.inActiveUsed(podInfos[i].Status) ==> pod_info.podKeyOf(podInfos[i].Pod) in ni.PodInfos
-//@   ensures [othersNotCharged] (forall i int :: 0 <= i && i < len(podInfos) ==> !pod_status.inActiveUsed(podInfos[i].Status)) ==> acctUntouched(ni) && acctScalarsUntouched(ni)
+//@   ensures [othersNotCharged] (exists i int :: 0 <= i && i < len(podInfos) && pod_status.inActiveUsed(podInfos[i].Status)) || (acctUntouched(ni) && acctScalarsUntouched(ni))
 //@   ensures [registered] forall i int :: 0 <= i && i < len(podInfos) ==> podInfos[i].UID in existingPodsMap && existingPodsMap[podInfos[i].UID] != nil && existingPodsMap[podInfos[i].UID].UID == podInfos[i].UID
 //@   ensures [registeredKept] forall k common_info.PodID :: old(k in existingPodsMap) ==> k in existingPodsMap
 //@   ensures [recordedKept] forall k common_info.PodID :: old(k in ni.PodInfos) ==> k in ni.PodInfos
+//@   ensures [otherTasksKept] forall t *pod_info.PodInfo :: (forall i int :: 0 <= i && i < len(podInfos) ==> podInfos[i] != t) ==> t.AcceptedResource == old(t.AcceptedResource) && t.ResourceReceivedType == old(t.ResourceReceivedType)
+//@   ensures [tasksStillAddable] tasksAddable(ni, podInfos, 0)
 //@   ensures [wf] nodeWF(ni) && podsWF(ni)
 //@ end
